@@ -265,4 +265,8 @@ fire("C12", "lz-shared-base-dict", "R12.1", [E(MG, "LZCompressionVectorizer.tran
      "every string parses into one shared dictionary object through a local alias")
 fire("C14", "mask-radius-bumped", "R14.3", E(WK, "variable_window_radii", "    result[(result > 0) * (result < 1)] = 1.0\n", "    result[result < 1] = 1.0\n"), "the zeroed radius of the mask token is raised to 1 again")
 
+fire("C09", "token-without-pair", "R9.5", E(MG, "bpe_train", "            code_list.append(pair_to_replace)\n", ""), "the merge list misses a pair that has a token", allow_error=True)
+fire("C09", "replay-configured-limit", "R9.5", E(MG, "BytePairEncodingVectorizer.transform", "bpe_encode_all(X, self.code_list_, self.max_char_code_)", "bpe_encode_all(X, self.code_list_, _named_limit_to_max_char_code(self.max_char_code))"), "transform replays with the configured instead of the fitted character limit")
+fire("C11", "posterior-offset-next-row", "R11.4", E(COO, "em_update_matrix", "                posterior_data[\n                    prior_indptr[target_gram_ind] + context_ind[i + win_offset[w]]\n                ] += val", "                posterior_data[\n                    prior_indptr[target_gram_ind + 1] + context_ind[i + win_offset[w]]\n                ] += val"), "posterior mass written relative to the next row's start")
+
 VARIANTS = V
